@@ -237,6 +237,8 @@ def totuple(x):
 def c13_item(res, item):
     if item.get("type") == "c13subclass":
         return c13_number_subclasses(res)
+    if item.get("type") == "c13classes":
+        return c13_user_classes(res)
     if item.get("type") == "c13many":
         return c13_many_teams(res)
     if item.get("type") == "c13flags":
@@ -346,6 +348,47 @@ def c13_number_subclasses(res):
                              dict(type="c13subclass", kind=kind))
 
 
+def c13_user_classes(res):
+    """(a) players that are instances of a user's subclass of the rating class with its own constructor signature: well-formed,
+    accepted by rate (which deep-copies its input) and by the predictions, same numbers as plain ratings; (b) objects of an
+    unrelated class that merely has the SAME NAME as the model's rating class (a dataclass row, an empty stub): not ratings,
+    rejected with TypeError before any side effect"""
+    import dataclasses
+    for kind in KINDS:
+        R = RATING_CLS[kind]
+        A = core.account_class(R)
+        m = MODEL_CLS[kind]()
+        mk = lambda sub: [[(A("ann", "eu", 25.0, 8.0) if sub else m.rating(25.0, 8.0, "ann")), m.rating(20.0, 4.0)],   # noqa: E731
+                          [(A("bob", "us", 30.0, 3.0) if sub else m.rating(30.0, 3.0, "bob"))], [m.rating(22.0, 6.0)]]
+        res.count("user_subclass_calls")
+        try:
+            got = [[(p.mu, p.sigma, p.name) for p in t] for t in m.rate(mk(True), ranks=[2, 1, 2])]
+            pg = (m.predict_win(mk(True)), m.predict_draw(mk(True)), m.predict_rank(mk(True)))
+        except Exception as e:  # noqa: BLE001
+            res.fail("property", "C13: a well-formed %s call whose players are instances of a user subclass of the rating class was rejected with %s: %s" % (
+                kind, type(e).__name__, str(e)[:90]), dict(type="c13classes", kind=kind)); continue
+        want = [[(p.mu, p.sigma, p.name) for p in t] for t in m.rate(mk(False), ranks=[2, 1, 2])]
+        if got != want or pg != (m.predict_win(mk(False)), m.predict_draw(mk(False)), m.predict_rank(mk(False))):
+            res.fail("property", "C13: %s: players that are instances of a user subclass give other numbers than plain ratings" % kind, dict(type="c13classes", kind=kind))
+        Row = dataclasses.make_dataclass(R.__name__, [("mu", float), ("sigma", float), ("id", str), ("name", str)])
+        Stub = type(R.__name__, (), {})
+        for label, fake in (("dataclass", Row(25.0, 8.0, "x", "x")), ("stub", Stub())):
+            for op in ("rate", "predict_win", "predict_draw", "predict_rank"):
+                good = [m.rating(25.0, 8.0), m.rating(21.0, 5.0)]
+                snap = [(g_.mu, g_.sigma) for g_ in good]
+                res.count("lookalike_calls")
+                try:
+                    getattr(m, op)([[good[0], fake], [good[1]]])
+                    res.fail("property", "C13: %s.%s accepted a player of an unrelated class named %s (%s)" % (kind, op, R.__name__, label), dict(type="c13classes", kind=kind)); break
+                except TypeError:
+                    pass
+                except Exception as e:  # noqa: BLE001
+                    res.fail("property", "C13: %s.%s with a player of an unrelated class named %s (%s) raised %s, not TypeError" % (kind, op, R.__name__, label, type(e).__name__),
+                             dict(type="c13classes", kind=kind)); break
+                if [(g_.mu, g_.sigma) for g_ in good] != snap:
+                    res.fail("property", "C13: %s.%s modified a rating before rejecting a look-alike player" % (kind, op), dict(type="c13classes", kind=kind)); break
+
+
 def c13_many_teams(res):
     """well-formed calls with several hundred teams (a battle-royale lobby): accepted, finite, and the length checks do not
     depend on how the interpreter caches small integers"""
@@ -437,6 +480,7 @@ def c13(res):
     c13_shared_ids(res)
     if res.shard == 0:
         c13_number_subclasses(res)
+        c13_user_classes(res)
         c13_many_teams(res)
         c13_interpreter_flags(res)
     calls = []
@@ -641,7 +685,8 @@ def c14_objects_history(res, rng, kind):
     """the rating OBJECTS persist from call to call on one model (a league); before every call a second set is rebuilt from nothing
     but the (mu, sigma) values on a fresh or the same model: a result may depend on the values only, not on what an object
     has been through (marks left on it by earlier calls, games that left its sigma bit-for-bit unchanged, ...)"""
-    c20_league(res, rng, kind, [], prop="C14", rebuild_p=1.0)
+    c20_league(res, rng, kind, [], prop="C14", rebuild_p=1.0, polarised_p=1.0)
+    c20_league(res, rng, kind, [], prop="C14", rebuild_p=1.0, polarised_p=0.0)
 
 
 def c14_item(res, item):
@@ -688,6 +733,12 @@ def c14(res):
     # predictions of many differently configured models in ONE process (a module- or class-level cache keyed by too
     # little would make a result depend on an earlier call of ANOTHER model): each must be the model's pure function
     pg = [p_pred.pred_game(rng, n=rng.choice([2, 3, 3]), maxsize=2) for _ in range(size(res, 250, 1200))]
+    for kind in KINDS:
+        # the same squad (one list object) entered in several slots: the numbers depend on the values, not on object identity
+        for n in (3, 4, 5):
+            g = p_pred.pred_game(rng, kind=kind, stratum="identical", n=n, maxsize=3)
+            g["alias"] = True
+            pg.append(g)
     p_pred.corr_pred(res, pg, "property", "C14 predictions depend only on the model's parameters and the values (many models in one process)")
     for g in pg[:: max(1, len(pg) // 60)]:
         p_pred.reconfigure_sequence(res, g, rng, "C14")
@@ -738,6 +789,29 @@ def c18_eval(res, checks, outs):
             res.fail("property", "C18: %s: (%r,%r) %s (%r,%r) is %r but the ordinals are %r and %r" % (kind, a[0], a[1], op, b[0], b[1], got, oa, ob), inp)
         if str(bool(got)) != o:
             res.fail("correspondence", "C18: %s %s: implementation %r, model %s" % (kind, op, got, o), inp)
+
+
+def c18_subclass(res, kind):
+    """a user's subclass of the rating class IS a rating of that model: it compares with plain ratings (in both operand orders)
+    and with other subclass instances exactly as the ordinals do; copies made by the library are plain ratings"""
+    R = RATING_CLS[kind]
+    A = core.account_class(R)
+    vals = [(25.0, 8.0), (28.0, 9.0), (1.0, 0.0), (-2.0, -1.0), (30.0, 2.0)]
+    for (m1, s1) in vals:
+        for (m2, s2) in vals:
+            for x, y in ((A("a", "eu", m1, s1), R(m2, s2)), (R(m1, s1), A("b", "us", m2, s2)), (A("a", "eu", m1, s1), A("b", "us", m2, s2)),
+                         (A("a", "eu", m1, s1), copy.deepcopy(A("b", "us", m2, s2)))):
+                o1, o2 = m1 - 3.0 * s1, m2 - 3.0 * s2
+                res.count("subclass_pairs")
+                try:
+                    got = (x < y, x <= y, x > y, x >= y, x == y, x != y)
+                except Exception as e:  # noqa: BLE001
+                    res.fail("property", "C18: %s: comparing a user-subclass rating with a rating of the same model raised %s" % (kind, type(e).__name__),
+                             dict(type="c18sub", kind=kind)); return
+                want = (o1 < o2, o1 <= o2, o1 > o2, o1 >= o2, (m1, s1) == (m2, s2), (m1, s1) != (m2, s2))
+                if got != want:
+                    res.fail("property", "C18: %s: (%r,%r) vs (%r,%r) with a user-subclass operand gives %r, the ordinals / values say %r" % (kind, m1, s1, m2, s2, got, want),
+                             dict(type="c18sub", kind=kind)); return
 
 
 def c18_foreign(res, kind):
@@ -801,6 +875,7 @@ def c18(res):
                 res.case(dict(kind=kind, a=a, b=b, grid="small"))
                 c18_pair(res, kind, a, b, lines, checks)
         c18_foreign(res, kind)
+        c18_subclass(res, kind)
         # ordinal and sorting
         R = RATING_CLS[kind]
         for (m, s) in pts[:30]:
@@ -960,6 +1035,24 @@ def c19_two(res, g):
     b = dict(g); b["kind"] = "BTP"
     try:
         A, B = impl_teams(a), impl_teams(b)
+        if core.game_hash(g) % 5 == 2:
+            # a roster that lists one rating object twice: whatever the library does with it (it is updated twice in sequence), both
+            # Bradley-Terry variants do the same on a two-team game
+            outs = []
+            for gk in (a, b):
+                m = build_model(gk)
+                ts = build_teams(m, gk)
+                ts[0] = ts[0] + [ts[0][0]]
+                kw = {}
+                if gk["oc"][0] == "R": kw["ranks"] = list(gk["oc"][1])
+                elif gk["oc"][0] == "S": kw["scores"] = list(gk["oc"][1])
+                if gk["tauopt"] is not None: kw["tau"] = gk["tauopt"]
+                if gk["lsopt"] is not None: kw["limit_sigma"] = gk["lsopt"]
+                outs.append([[(p.mu, p.sigma) for p in t] for t in m.rate(ts, **kw)])
+            res.count("two_team_games_member_listed_twice")
+            if outs[0] != outs[1]:
+                res.fail("property", "C19: two-team game with a member listed twice: BradleyTerryPart %r differs from BradleyTerryFull %r" % (outs[1][0][0], outs[0][0][0]),
+                         dict(type="game", game=a)); return
     except Exception as e:  # noqa: BLE001
         res.fail("property", "C19: valid call raised %s" % type(e).__name__, dict(type="game", game=g)); return
     res.count("two_team_games")
@@ -1051,8 +1144,20 @@ def c19_rating_rules(res, rng):
             R = RATING_CLS[k]
             a, b = R(m, s, "n"), R(m2, s2)
             c = copy.deepcopy(a)
+            A = core.account_class(R)
+            u = A("acc", "eu", m, s)
+            cu = copy.deepcopy(u)
+            try:
+                mdl = MODEL_CLS[k]()
+                rated = mdl.rate([[A("acc", "eu", m, s)], [R(m2, s2)]], ranks=[1, 2])
+                sub_rate = ("accepted", type(rated[0][0]).__name__ == "Account")
+            except Exception as e:  # noqa: BLE001
+                sub_rate = (type(e).__name__, None)
             rows[k] = (a == b, a < b, a <= b, a > b, a >= b, a.ordinal(), hash(a) == hash((a.id, a.mu, a.sigma)),
-                       (c.mu, c.sigma, c.name) == (a.mu, a.sigma, a.name), c.id == a.id, c is not a, hash(c) == hash(a))
+                       (c.mu, c.sigma, c.name) == (a.mu, a.sigma, a.name), c.id == a.id, c is not a, hash(c) == hash(a),
+                       # a user's subclass of the rating class: what a copy of it is, how it compares, whether rate takes it
+                       type(cu) is R, type(cu).__name__ == "Account", (cu.mu, cu.sigma, cu.name, cu.id) == (u.mu, u.sigma, u.name, u.id),
+                       u == a, (u < b, u <= b, b > u, b >= u), sub_rate)
         res.count("rating_rule_rows")
         if len(set(rows.values())) != 1:
             res.fail("property", "C19: rating classes compare/hash/copy by different rules: %r" % rows, dict(type="c19rules"))
@@ -1218,6 +1323,11 @@ def c20_construct(res, kind, seen_ids):
     want = [[(5.0, 6.5, live.id)], [(-3.5, 7.25, live.id)], [(5.0, 6.5, live.id), (-3.5, 7.25, live.id)]]
     if vals != want:
         res.fail("property", "C20: deepcopy of a nested list holding a snapshot and the live rating of one player gives %r, expected %r" % (vals, want), inp); return
+    # a copy keeps the name exactly, the empty string included (only create_rating documents turning "" into None)
+    e_ = m.rating(3.0, 1.5, "")
+    for c_ in (copy.deepcopy(e_), copy.deepcopy([[e_]])[0][0]):
+        if not (same_value(c_.name, e_.name) if isinstance(e_.name, float) else (c_.name == e_.name and type(c_.name) is type(e_.name))):
+            res.fail("property", "C20: deepcopy of a rating named %r holds the name %r" % (e_.name, c_.name), inp); return
     d = m.rating()
     if not (d.mu == 31.0 and d.sigma == 7.0 and d.name is None):
         res.fail("property", "C20: rating() without arguments does not use the model defaults", inp)
@@ -1235,14 +1345,14 @@ def c20_construct(res, kind, seen_ids):
                 res.fail("property", "C20: deepcopy of nested team lists does not preserve the ratings", inp); return
 
 
-def c20_league(res, rng, kind, games_out, prop="C20", rebuild_p=0.6):
+def c20_league(res, rng, kind, games_out, prop="C20", rebuild_p=0.6, polarised_p=0.3):
     beta, kappa, tau = gen_config(rng, 0.6)
     cfg = dict(beta=beta, kappa=kappa, tau=tau, limit_sigma=rng.random() < 0.3)
     model = MODEL_CLS[kind](**cfg)
     npl = rng.randint(5, 10)
     sc = beta / core.DEFAULTS["beta"]
     A = [model.rating(rng.gauss(25, 8) * sc, rng.uniform(1, 9) * sc, "p%d" % i) for i in range(npl)]
-    polarised = rng.random() < 0.3
+    polarised = rng.random() < polarised_p
     if polarised:
         # a polarised league: settled players at the two ends of the range; squads of one kind meet squads of the other and the
         # result is the expected one, so the game carries no information and leaves every sigma bit-for-bit where tau put it
@@ -1277,6 +1387,13 @@ def c20_league(res, rng, kind, games_out, prop="C20", rebuild_p=0.6):
         inp = dict(type="c20league", kind=kind, cfg=cfg, prop=prop)
         pa = (model.predict_win(tA), model.predict_draw(tA), model.predict_rank(tA))
         pb = (model.predict_win(tB), model.predict_draw(tB), model.predict_rank(tB))
+        if nt >= 2 and gi % 3 == 0:
+            # the same squad list entered twice (objects with a history) against two separately rebuilt squads with the same values
+            qa = [tA[0], tA[0]] + tA[1:]
+            qb = [tB[0], list(tB[0])] + tB[1:]
+            res.count("squad_entered_twice")
+            if (model.predict_win(qa), model.predict_draw(qa), model.predict_rank(qa)) != (model.predict_win(qb), model.predict_draw(qb), model.predict_rank(qb)):
+                res.fail("property", "%s: predictions for a squad entered twice as one list object differ from those for rebuilt ratings in separate lists at game %d" % (prop, gi), inp); return
         if pa != pb:
             res.fail("property", "%s: predictions with rebuilt ratings differ from the originals (objects with a history) at game %d" % (prop, gi), inp); return
         if rng.random() < 0.2:
